@@ -7,6 +7,14 @@ filtering).  A rule asks: can an event of kind B occur after an event of kind A 
 
 
 def call_user_throws(F, fname, i, ts, kind, types):
+    if i.callee == '__cxa_throw':
+        # a throw expression of the function itself: the type thrown is the typeinfo operand
+        from .facts import strip_casts, typeinfo_name
+        ti = strip_casts(i.a[1])
+        s = set([typeinfo_name(F.m, ti[1]) if ti[0] == 'g' else 'UNKNOWN:throw'])
+        if i.op == 'invoke':
+            s = F.through_pad(fname, i.d['unwind'], s)
+        return set(t for t in s if t in types)
     s = F.call_throws(i, ts, kind)
     if not s:
         return set()
